@@ -110,7 +110,10 @@ PLANS = {
                 "except for tables created before the failure point (linked, all-zero) and requested parent flags. Fault "
                 "enumeration: at EVERY map call of every history that needs k>=1 new tables the whole state (memory, model, "
                 "allocator) is forked k times and the call re-run with the allocator failing request 1..k; the result must be "
-                "FrameAllocationFailed, no request may follow the failed one, and no mapping may change. distinct_nontrivial counts "
+                "FrameAllocationFailed, no request may follow the failed one, and no mapping may change. Extended-domain and "
+                "corrupt-table histories (guard pages, disabled parents, links to tables declared huge pages with unaligned "
+                "addresses) are judged without the model: every call that reports an error leaves all leaf-position entries of the "
+                "raw hierarchy bit-identical. distinct_nontrivial counts "
                 "distinct (build, implementation, operation<size>, state class, outcome) and (operation, failing request j of k) tuples.",
         "assumptions": COMMON_ASSUME + ["states the documentation does not define (a huge-size call on a slot that holds a page table) accept any Err without change and reject Ok"],
         "quick": BOTH_Q, "thorough": BOTH_T + MIRI_T,
@@ -286,7 +289,8 @@ PLANS = {
                 "sizes + random quintuples, the computed table page must equal sign_extend48 of R repeated 3/2/1 times followed by "
                 "the page's upper indices; (b) live: random call histories on the real RecursivePageTable under the software MMU "
                 "(lower-half R sampled among the free 512 GiB regions of the process): every address that faults during an "
-                "operation must be the recursive address of a table of the hierarchy before or after the call; (c) "
+                "operation must be the recursive address of a table of the hierarchy before or after the call, and of a table the "
+                "call has business with (on the path of the operation's page; overlapping the range of a clean-up); (c) "
                 "RecursivePageTable::new on a reference at [R,R,R,R] under an emulated CR3: slot contents {self+P, self+P+other "
                 "flags, self without P, other frame, zero} x CR3 {that frame with arbitrary low 12 bits, other frames} -> Ok / "
                 "NotActive; near-recursive addresses (one index differing at each position) -> NotRecursive; after Ok the first "
